@@ -392,6 +392,15 @@ func (p *qPlanner) plan(db string, nodes []*models.StatefulNode, shards [][]mode
 			m[sid] = models.ShardState{ID: sid, State: models.OnlineShard, Leader: n.ID, Replica: models.Replica{Replicas: all}}
 		}
 	}
+	// one more shard that is not online (just assigned, no leader, no data): it must not be planned and must not keep
+	// any online shard out of the plan
+	extra := models.ShardID(0)
+	for sid := range m {
+		if sid >= extra {
+			extra = sid + 1
+		}
+	}
+	m[extra] = models.ShardState{ID: extra, State: models.NewShard, Leader: -1, Replica: models.Replica{Replicas: all}}
 	st.ShardStates[db] = m
 	data, _ := json.Marshal(st)
 	p.mgr.EmitEvent(&discovery.Event{Type: discovery.StorageStateChanged, Key: constants.StorageStatePath, Value: data})
@@ -830,7 +839,7 @@ func (h *qHist) run(q *qQuery, lay *qLayout) (res trace.F, info string) {
 			h.planner = newQPlanner(h.dbName, h.nsh, h.opt)
 		}
 		planned, perr := h.planner.plan(h.dbName, leafNodes, leafShards)
-		if perr != nil && !(errors.Is(perr, constants.ErrShardNotFound) && !anyShard) {
+		if perr != nil && !((errors.Is(perr, constants.ErrShardNotFound) || errors.Is(perr, constants.ErrReplicaNotFound)) && !anyShard) {
 			return trace.F{"ok": false, "err": "harness", "lost": 0}, "planner: " + perr.Error()
 		}
 		idxOf := map[string]int{}
